@@ -31,3 +31,19 @@ Proof. vm_compute. reflexivity. Qed.
 
 Theorem C07_six_loops : List.length omp_loops = 6%nat.
 Proof. vm_compute. reflexivity. Qed.
+
+(* The index plan those theorems are about is the one dd_dtw_openmp.c computes: dtw_distances_prepare (first
+   column, running offset) and the row / column / output-slot expressions of all six parallel routines,
+   regenerated into Gen_ompidx, coincide with Parallel.cb_of / rls_from / slot / tasks. *)
+From DV Require Import ParallelTie.
+From DVGen Require Import Gen_ompidx.
+
+Theorem C07_index_plan_is_the_code :
+  (forall b r, k_triu b = true -> cb_of b r = c_prepare_cb (k_cb b) r) /\
+  routine_matches c_omp0_rows c_omp0_row c_omp0_col_rect c_omp0_col_end c_omp0_slot_triu_off c_omp0_slot_rect /\
+  routine_matches c_omp1_rows c_omp1_row c_omp1_col_rect c_omp1_col_end c_omp1_slot_triu_off c_omp1_slot_rect /\
+  routine_matches c_omp2_rows c_omp2_row c_omp2_col_rect c_omp2_col_end c_omp2_slot_triu_off c_omp2_slot_rect /\
+  routine_matches c_omp3_rows c_omp3_row c_omp3_col_rect c_omp3_col_end c_omp3_slot_triu_off c_omp3_slot_rect /\
+  routine_matches c_omp4_rows c_omp4_row c_omp4_col_rect c_omp4_col_end c_omp4_slot_triu_off c_omp4_slot_rect /\
+  routine_matches c_omp5_rows c_omp5_row c_omp5_col_rect c_omp5_col_end c_omp5_slot_triu_off c_omp5_slot_rect.
+Proof. split; [exact tie_prepare_cb|exact omp_routines_match]. Qed.
